@@ -61,7 +61,12 @@ C15Cancel(pr, e, c) ==
 C15Many(pr) ==
     [C15Scen(pr, 4, 8, <<>>, Orders1, "none") EXCEPT !.id = "C15/many/" \o pr[1] \o pr[2], !.label = pr[1] \o "/" \o pr[2] \o "/twelve_failures",
         !.faults = [r \in 1..12 |-> [op |-> "write", k |-> 1, class |-> "fatal", run |-> r]]]
-C15All(u) == { C15Many(pr) : pr \in {<<"udp", "", FALSE>>, <<"icmp", "", FALSE>>} } \cup { C15Cancel(pr, e, c) : pr \in {<<"udp", "", FALSE>>, <<"tcp", "syn", FALSE>>, <<"udp", "", TRUE>>}, e \in {2, 4}, c \in {100000, 450000} } \cup { C15Scen(pr, qe[1], qe[2], fs, ord, pub) :
+\* the same counts through the HTTP API, zero included (traceroute-only and e2e-only requests)
+C15Http(pr, q, e) ==
+    [C15Scen(pr, q, e, <<>>, Orders1, "none") EXCEPT !.id = "C15/http/" \o pr[1] \o pr[2] \o "/" \o ToString(q) \o "-" \o ToString(e), !.label = "http/" \o pr[1] \o "/q" \o ToString(q) \o "e" \o ToString(e),
+        !.run.via = "http",
+        !.run.query = "target=" \o T4 \o "&protocol=" \o pr[1] \o "&tcp-method=" \o pr[2] \o "&port=443&max-ttl=4&timeout=300&traceroute-queries=" \o ToString(q) \o "&e2e-queries=" \o ToString(e)]
+C15All(u) == { C15Http(pr, qe[1], qe[2]) : pr \in {<<"udp", "", FALSE>>, <<"tcp", "syn", FALSE>>}, qe \in {<<1, 0>>, <<0, 1>>, <<0, 2>>, <<2, 1>>} } \cup { C15Many(pr) : pr \in {<<"udp", "", FALSE>>, <<"icmp", "", FALSE>>} } \cup { C15Cancel(pr, e, c) : pr \in {<<"udp", "", FALSE>>, <<"tcp", "syn", FALSE>>, <<"udp", "", TRUE>>}, e \in {2, 4}, c \in {100000, 450000} } \cup { C15Scen(pr, qe[1], qe[2], fs, ord, pub) :
                  pr \in Protos, qe \in {<<1, 0>>, <<3, 0>>, <<0, 2>>, <<2, 3>>, <<3, 1>>}, fs \in FaultSets(4), ord \in Orders, pub \in {"none", "ok", "fail"} }
 
 ---------------------------------------------------------------------------
@@ -294,7 +299,22 @@ C01Req(pert) ==
      inject |-> <<[at_us |-> 150000, for_ttl |-> 3, form |-> "te", from |-> "192.0.2.200", mods_d |-> pert[2], mods_s |-> pert[3], tag |-> pert[1]]>>]
 C01ReqAll(u) == { C01Req(p) : p \in { <<"q_src", [x \in {} |-> 0], [q_src |-> "10.77.0.2"]>>, <<"q_sport+1", [q_sport |-> 1], [x \in {} |-> ""]>>,
                                          <<"q_dst", [x \in {} |-> 0], [q_dst |-> "198.51.100.10"]>>, <<"genuine", [x \in {} |-> 0], [x \in {} |-> ""]>> } }
-HistAll(u) == { C19Hist(n, w) : n \in {"dual46.test", "dual64.test"}, w \in BOOLEAN } \cup { C20Hist(m) : m \in {"prefer_sack", "sack"} }
+\* C19 / C11: a request that differs from one IN FLIGHT on the same server only in max-ttl and query counts gets its own execution
+C19Conc(late) ==
+    LET me == C19Http(<<"udp", "", FALSE>>, 3, 443, T4)
+        other == [me.run EXCEPT !.max_ttl = 2, !.query = "target=" \o T4 \o "&protocol=udp&tcp-method=&port=443&max-ttl=2&timeout=120&traceroute-queries=1&e2e-queries=0"] IN
+    [me EXCEPT !.id = @ \o "/concurrent_other_max_ttl/" \o ToString(late), !.label = @ \o "/concurrent_other_max_ttl", !.run.start_delay_us = late] @@ [mix |-> <<other>>]
+\* C19: the same host was traced on ANOTHER port a moment ago (same process)
+C19Port(p1, p2) ==
+    [C19Scen(<<"tcp", "syn", FALSE>>, 1, 3, p2, T4, "port") EXCEPT !.id = @ \o "/after_port" \o ToString(p1), !.label = @ \o "/after_other_port"]
+    @@ [before |-> <<[Run("tcp", "syn", FALSE, 1, 3, 1, 0) EXCEPT !.port = p1, !.timeout_ms = 120, !.delay_ms = 1]>>]
+\* C01: the identical request was served a moment ago: the new answer rests on packets of a NEW run
+C01Repeat(pr) ==
+    LET me == C19Http(pr, 3, 443, T4) IN
+    [me EXCEPT !.id = "C01/http/repeat/" \o pr[1] \o pr[2], !.label = "http/" \o pr[1] \o pr[2] \o "/identical_request_repeated"] @@ [before |-> <<me.run>>]
+HistAll(u) == { C19Conc(l) : l \in {0, 20000, 60000} } \cup { C19Port(80, 443), C19Port(443, 80), C19Port(80, 0) }
+              \cup { C01Repeat(pr) : pr \in {<<"udp", "", FALSE>>, <<"icmp", "", FALSE>>, <<"tcp", "syn", FALSE>>} }
+              \cup { C19Hist(n, w) : n \in {"dual46.test", "dual64.test"}, w \in BOOLEAN } \cup { C20Hist(m) : m \in {"prefer_sack", "sack"} }
               \cup { C16Hist(b) : b \in {1, 40, 300} } \cup { C17Conc(pr, l) : pr \in {<<"icmp", "", FALSE>>, <<"udp", "", FALSE>>}, l \in {0, 30000, 300000} }
 
 ---------------------------------------------------------------------------
